@@ -35,14 +35,14 @@ type VerifBalloonDef struct {
 }
 
 type VerifSnapshot struct {
-	Allowed  string            `json:"allowed"`
-	Reserved string            `json:"reserved"`
-	Free     string            `json:"free"`
-	Defs     []VerifBalloonDef `json:"defs"`
-	Balloons []VerifBalloon    `json:"balloons"`
-	PinCPU   bool              `json:"pin_cpu"`
-	PinMem   bool              `json:"pin_mem"`
-	IdleClass string           `json:"idle_class"`
+	Allowed   string            `json:"allowed"`
+	Reserved  string            `json:"reserved"`
+	Free      string            `json:"free"`
+	Defs      []VerifBalloonDef `json:"defs"`
+	Balloons  []VerifBalloon    `json:"balloons"`
+	PinCPU    bool              `json:"pin_cpu"`
+	PinMem    bool              `json:"pin_mem"`
+	IdleClass string            `json:"idle_class"`
 }
 
 func VerifSnap(b policyapi.Backend) *VerifSnapshot {
